@@ -239,6 +239,13 @@ struct Exec {
         switch (op.api) {
         case A_PWHASH: {
             cr.out.assign(op.outlen, 0xEE);
+            if (op.variant == 4) {
+                // the output buffer IS the password buffer (the current tree refuses that with EINVAL before asking for any
+                // memory; a tree that supports it must still fail closed)
+                cr.out.assign(std::max<size_t>(op.outlen, P.pw.size()), 0xEE);
+                if (!P.pw.empty()) memcpy(cr.out.data(), P.pw.data(), P.pw.size());
+                pw = (const char *) cr.out.data();
+            }
             if (op.form == 0) cr.rc = crypto_pwhash(cr.out.data(), op.outlen, pw, P.pw.size(), P.salt.data(), ops, mem, op.alg == 0 ? crypto_pwhash_ALG_ARGON2I13 : crypto_pwhash_ALG_ARGON2ID13);
             else if (op.alg == 0) cr.rc = crypto_pwhash_argon2i(cr.out.data(), op.outlen, pw, P.pw.size(), P.salt.data(), ops, mem, crypto_pwhash_argon2i_ALG_ARGON2I13);
             else cr.rc = crypto_pwhash_argon2id(cr.out.data(), op.outlen, pw, P.pw.size(), P.salt.data(), ops, mem, crypto_pwhash_argon2id_ALG_ARGON2ID13);
